@@ -127,6 +127,36 @@ Theorem C08_empty_buffer_is_reading : forall limit ops,
 Proof. exact empty_buffer_reading. Qed.
 Print Assumptions C08_empty_buffer_is_reading.
 
+(* ---- a reader does not hang once an exception is set (repair 497a2a6) ----------------------------
+   In every reachable state: no reader is suspended on a pending waiter while self._exception is set
+   (set_exception fails the waiter if there is one; _wait raises a pending exception before creating a
+   new one).  A reader that was woken with the exception completes, on its next loop turn, by raising it. *)
+Theorem C08_no_wait_with_exception : forall limit ops,
+  let y := fst (run ops (init_sys limit)) in
+  wt (sst y) = Waiting -> exc (sst y) = None.
+Proof. exact NE_run. Qed.
+Print Assumptions C08_no_wait_with_exception.
+
+Theorem C08_exception_unblocks : forall limit ops,
+  let y := fst (run ops (init_sys limit)) in
+  exc (sst y) <> None -> wt (sst y) <> Waiting.
+Proof. exact exception_unblocks. Qed.
+Print Assumptions C08_exception_unblocks.
+
+Theorem C08_woken_reader_raises : forall y k e,
+  task y = Some k -> wt (sst y) = WokenExc e ->
+  snd (step ORun y) = ObDone (RRaise (ExStream e) (acc_of k)) /\ task (fst (step ORun y)) = None.
+Proof. exact woken_reader_completes_on_exception. Qed.
+Print Assumptions C08_woken_reader_raises.
+
+(* the repaired scenario: read(3) suspended, woken by a chunk end without data, exception set before
+   the reader runs: the reader now raises instead of waiting again *)
+Example C08_example_exception_after_wakeup :
+  snd (run [OBegin; OFeed [97%N]; OStart CReadAny; OStart (CRead 3); OEnd; OExc 1%N; ORun] (init_sys 4)) =
+  [ObNone; ObNone; ObDone (RBytes [97%N]); ObBlocked; ObNone; ObNone; ObDone (RRaise (ExStream 1%N) [])].
+Proof. vm_compute. reflexivity. Qed.
+Print Assumptions C08_example_exception_after_wakeup.
+
 (* the former counterexample: limit = 0, feed_data(b"abc"); readany(); readany() now ends with the
    reader suspended and the transport reading *)
 Example C08_example_limit0 :
